@@ -32,12 +32,22 @@ def remove_task(spec, tn):
     s["requirements"] = [r for r in s.get("requirements", []) if r["task"] != tn]
     out = []
     for c in s.get("constraints", []):
+        # rules about the scheduling of tn itself: with tn left unscheduled they either contradict the pin or
+        # constrain other tasks' flags - the problem "with tn deleted" is not defined by deletion alone
+        if c["kind"] in ("OptionalTaskForceSchedule", "OptionalTaskConditionSchedule") and c.get("task") == tn:
+            return None
+        if c["kind"] == "OptionalTasksDependency" and c.get("t2") == tn:
+            return None
+        if c["kind"] == "ForceScheduleNOptionalTasks" and tn in c.get("tasks", []):
+            rest = [x for x in c["tasks"] if x != tn]
+            if not rest:
+                return None
+            out.append(dict(c, tasks=rest))      # an unscheduled task does not count
+            continue
         if c["kind"] in ("TasksContiguous", "UnorderedTaskGroup", "OrderedTaskGroup", "ScheduleNTasksInTimeIntervals",
                          "ForceScheduleNOptionalTasks") and tn in c.get("tasks", []):
             c = dict(c, tasks=[x for x in c["tasks"] if x != tn])
             if not c["tasks"]:
-                continue
-            if c["kind"] == "ForceScheduleNOptionalTasks":
                 continue
             out.append(c)
         elif names_task(c, tn) or tn in json.dumps(c.get("cond", "")) or tn in json.dumps(c.get("expr", "")):
@@ -73,7 +83,7 @@ def make_mandatory(spec, tn):
 def diff_specs(tier):
     out = []
     for name, spec in c05.optional_cells():
-        if "rule" in name or "forceN" in name or "dependency" in name:
+        if "rule.OptionalTaskForceSchedule" in name or "rule.OptionalTaskConditionSchedule" in name:
             continue
         out.append((name, spec))
     for name, spec in families.c03_cells(tier):
